@@ -573,6 +573,21 @@ def run(ctx):
         pos_cases.append({'bind': [[parts, 41], [['zz'], 1]], 'e': text, 'want': 41, 'what': 'symbols in a row', 'bound': [parts, ['zz']]})
     for text, want in (('({vc: 4}).vc * 2', 8), ('{p: {vc: 4}}.p.vc - 1', 3), ('[{vc: 4}][1].vc + 1', 5), ('({vc: 4}).vc', 4), ('({vc: 4}).vc*2', 8)):
         pos_cases.append({'bind': [[['zz'], 1]], 'e': text, 'want': want, 'what': 'member after dot', 'bound': [['zz']], 'known': 'member-name-not-in-scope'})
+    # path heads bound to a context, to a list of contexts and to a list of lists of contexts (the scope's flattened keys qualify the members of a
+    # bound context; for a list value they must not invent a bound name `head.member`; seeded change C10_d), one- and several-word names
+    cx = lambda **kv: {'ctx': [[k.split(' '), v] for k, v in kv.items()]}
+    for head, member in ((['orders'], 'amount'), (['order', 'lines'], 'unit price'), (['a', '-', 'b'], 'c')):
+        lst_v = {'list': [cx(**{member: 5}), cx(**{member: 7})]}
+        ctx_v = cx(**{member: 5})
+        ht = name_new(head)
+        for sp in ('.', ' . ', '. '):
+            for bound_v, want, what in ((lst_v, [5, 7], 'path head bound to a list of contexts'), (ctx_v, 5, 'path head bound to a context'),
+                                        ({'list': [lst_v]}, None, 'path head bound to a list of lists')):
+                if want is None:
+                    continue
+                pos_cases.append({'bind': [[head, bound_v], [['zz'], 1]], 'e': '%s%s%s' % (ht, sp, member), 'want': want, 'what': what, 'bound': [head, ['zz']]})
+            pos_cases.append({'bind': [[head, lst_v], [['zz'], 1]], 'e': 'sum(%s%s%s) + zz' % (ht, sp, member), 'want': 13, 'what': 'path head bound to a list of contexts', 'bound': [head, ['zz']]})
+            pos_cases.append({'bind': [[head, lst_v], [['zz'], 1]], 'e': 'count(%s[%s > 4]%s%s)' % (ht, member, sp, member), 'want': 2, 'what': 'path head bound to a list of contexts', 'bound': [head, ['zz']]})
     pimpl = ctx.run_impl('ast', [{'bind': c['bind'], 'e': c['e'], 'mode': 'expr', 'eval': True} for c in pos_cases])
     pk = {}
     for c, g in zip(pos_cases, pimpl):
